@@ -2,9 +2,10 @@ import Driver.Latch
 import Driver.LockFam
 import Driver.Barrier
 import Driver.LR
+import Driver.TripWire
 open Driver
 
-def comps : List Comp := [LatchD.comp, LockFamD.comp, BarrierD.comp, LRD.comp]
+def comps : List Comp := [LatchD.comp, LockFamD.comp, BarrierD.comp, LRD.comp, TripWireD.comp]
 
 def main (args : List String) : IO UInt32 := do
   match args with
